@@ -24,8 +24,8 @@ RULE = (
     "(item, yielded event sequence); non-trivial = at least two threads interleaved or an environment deviation taken"
 )
 BOUNDS = {
-    "quick": {"preemptions": 1, "env_deviations": 1, "workers": [1, 2], "max_exec_per_item": 700},
-    "thorough": {"preemptions": 2, "env_deviations": 1, "workers": [1, 2, 3], "max_exec_per_item": 20000},
+    "quick": {"preemptions": 1, "env_deviations": 1, "total_deviations": 1, "workers": [1, 2], "max_exec_per_item": 1500},
+    "thorough": {"preemptions": 2, "env_deviations": 1, "total_deviations": 2, "workers": [1, 2, 3], "max_exec_per_item": 20000},
 }
 BUDGET_S = {"quick": 140, "thorough": 3300}
 CHUNK = 1
@@ -48,36 +48,36 @@ def items(tier: str, seed: int) -> list[dict]:
     b = BOUNDS[tier]
     p, e = b["preemptions"], b["env_deviations"]
     out: list[dict] = []
+    shards = 4 if tier == "quick" else 16
 
     def add(**kw: Any) -> None:
         base = {"doc": "unit3", "phases": ["fuzzing"], "workers": 2, "max_failures": None, "cof": False, "behaviour": "ok",
-                "fault": None, "p": p, "e": e, "max_examples": 1}
+                "fault": None, "p": p, "e": e, "max_examples": 1, "total": b["total_deviations"]}
         base.update(kw)
-        out.append(base)
+        out.extend(ee.sharded(base, shards if base["workers"] > 1 else 1))
 
-    # unit phases, 2 workers: API behaviours x failure limit
-    for behaviour in ("ok", "fail:/b", "all500"):
-        for mf in (None, 1):
-            add(behaviour=behaviour, max_failures=mf)
-    add(behaviour="fail:/b", cof=True)
+    # unit phase, 2 workers: API behaviours x failure limit x continue_on_failure (every stop / Ctrl-C point, every pre-emption)
+    add(behaviour="ok")
+    add(behaviour="fail:/b", max_failures=1)
+    add(behaviour="all500", max_failures=1)
     add(behaviour="all500", max_failures=2)
+    add(behaviour="fail:/b", cof=True)
     # single worker
     add(workers=1, behaviour="fail:/b")
     add(workers=1, behaviour="all500", max_failures=1)
     # several phases in sequence
-    add(doc="unit2", phases=["examples", "coverage", "fuzzing"], behaviour="ok", e=0)
-    add(doc="unit2", phases=["examples", "coverage", "fuzzing"], behaviour="fail:/b", max_failures=1, e=0)
-    add(doc="unit2", phases=["coverage", "fuzzing"], behaviour="ok", workers=1)
+    add(doc="unit2", phases=["coverage", "fuzzing"], behaviour="ok", e=0)
+    add(doc="unit2", phases=["examples", "coverage", "fuzzing"], behaviour="fail:/b", max_failures=1, workers=1)
     # stateful phase (its own thread), alone and after fuzzing
     add(doc="link", phases=["stateful"], workers=1, behaviour="ok", max_examples=2)
     add(doc="link", phases=["stateful"], workers=1, behaviour="fail_get_user", max_examples=2)
     add(doc="link", phases=["stateful"], workers=1, behaviour="fail_get_user", max_failures=1, max_examples=2)
-    add(doc="link", phases=["fuzzing", "stateful"], workers=2, behaviour="ok", e=0)
-    # single faults injected into workers
+    add(doc="link", phases=["fuzzing", "stateful"], workers=1, behaviour="ok")
+    # single faults injected into workers (schedules only)
     for kind in ("ConnectionError", "RuntimeError"):
-        add(fault={"stage": "transport", "kind": kind, "path": "/b", "k": 1})
+        add(fault={"stage": "transport", "kind": kind, "path": "/b", "k": 1}, e=0)
     for kind in ("RuntimeError", "AssertionError", "KeyboardInterrupt"):
-        add(fault={"stage": "check", "kind": kind, "path": "/b", "k": 1})
+        add(fault={"stage": "check", "kind": kind, "path": "/b", "k": 1}, e=0)
     add(doc="link", phases=["stateful"], workers=1, max_examples=2, fault={"stage": "check", "kind": "RuntimeError", "path": "/users/", "k": 1})
     add(doc="link", phases=["stateful"], workers=1, max_examples=2, fault={"stage": "check", "kind": "KeyboardInterrupt", "path": "/users/", "k": 1})
     if tier == "thorough":
@@ -85,6 +85,7 @@ def items(tier: str, seed: int) -> list[dict]:
             add(workers=3, behaviour=behaviour, max_failures=1)
             add(doc="unit2", phases=["examples", "coverage", "fuzzing"], behaviour=behaviour, workers=2)
         add(max_examples=2, behaviour="fail:/b", max_failures=1)
+        add(doc="link", phases=["fuzzing", "stateful"], workers=2, behaviour="ok")
     return out
 
 
@@ -107,8 +108,10 @@ def check_item(item: dict, tier: str) -> Result:
         env_at = next((re.sub(r"_\d+$", "", p.desc) for p in run.trace if p.chosen and p.costs[p.chosen][1]), None)
         if env == "stop" and r is not None and r.stop_after_event is not None:
             env_at = "after:" + type(events[r.stop_after_event]).__name__ if r.stop_after_event < len(events) else env_at
-        base = {"env": env, "env_at": env_at, "fault": (item["fault"] or {}).get("kind"),
-                "fault_stage": (item["fault"] or {}).get("stage")}
+        base = {"env": env, "env_at": env_at}
+        if env is None and item["fault"]:
+            # without an environment deviation the injected fault is the only candidate cause
+            base |= {"fault": item["fault"]["kind"], "fault_stage": item["fault"]["stage"]}
         detail = {"item": item, "schedule": ee.schedule_brief(run), "choices": run.choices, "events": ee.events_brief(events)}
         if run.leaked:
             res.violation({**base, "kind": "threads_left_running"}, detail | {"leaked": run.leaked}, current_item)
